@@ -116,7 +116,20 @@ def check_guards(ctx, lib):
         nreg2 = {x for x in reach_avoiding(b, none_t) if edge_dominates(b, (blk, none_t), x)}
         sv = [s["rv"]["variant"] for x in sreg for s in b.blocks[x]["stmts"] if s["k"] == "assign" and s["rv"]["k"] == "agg" and s["rv"].get("adt") == "variable::Variable"]
         nv = [s["rv"]["variant"] for x in nreg2 for s in b.blocks[x]["stmts"] if s["k"] == "assign" and s["rv"]["k"] == "agg" and s["rv"].get("adt") == "variable::Variable"]
-        ctx.check(sv == ["Array"] and nv == ["Null"], rule, "result-mapping", f"Some(elements) -> Array(elements), None (not an array) -> null (found {sv}, {nv})", b.span)
+        ok_map = sv == ["Array"] and nv == ["Null"]
+        if not ok_map and sv == ["Array"] and not nv:
+            # `slice(..).map_or(Null, Array)`: the null is built before the case analysis and handed over on the None side;
+            # judge by what the non-zero side can return: Array(the Some payload) or Null, nothing else, Array only on the Some side
+            vals = set()
+            for x in nreg:
+                for st in b.blocks[x]["stmts"]:
+                    if st["k"] == "assign" and st["rv"]["k"] == "agg" and st["rv"].get("adt") == "std::result::Result" and st["rv"]["variant"] == "Ok":
+                        vals |= o.of_operand(st["rv"]["ops"][0])
+            arrs = [t for t in vals if t[0] == "agg" and t[1] == "variable::Variable::Array"]
+            nuls = [t for t in vals if t[0] == "agg" and t[1] == "variable::Variable::Null"]
+            ok_map = bool(arrs) and bool(nuls) and len(arrs) + len(nuls) == len(vals) and \
+                all(t[2][0] and all(y[0] == "call" and y[1] == "variable::Variable::slice" for y in t[2][0]) for t in arrs)
+        ctx.check(ok_map, rule, "result-mapping", f"Some(elements) -> Array(elements), None (not an array) -> null (found {sv}, {nv})", b.span)
     # Variable::slice = as_array().map(|a| slice(a, start, stop, step))
     vs = ctx.fn("variable::Variable::slice", rule=rule)
     if vs is not None:
